@@ -7,7 +7,9 @@ dst = "/verif/seeded/%s" % name
 os.makedirs(dst, exist_ok=True)
 for f in ("patch.diff", "demo.diff", "README.md"):
     shutil.copy(os.path.join(src, f), os.path.join(dst, f))
-log = "/tmp/confirm/%s.log" % name.replace("-", "_m")
+log = "/tmp/confirm/%s.log" % name
+if not os.path.exists(log):
+    log = "/tmp/confirm/%s.log" % name.replace("-", "_m")
 conf = []
 if os.path.exists(log):
     conf = [l.strip() for l in open(log) if l.startswith(("SUITE-", "DEMO-", "RESULT"))]
